@@ -246,7 +246,7 @@ VERIF_TARGET(c51_gcs, init_c51, 24, 400,
         if (pm <= 1) { P = 19; M = 784931; }
         else if (pm == 2) { P = 10; M = 1 << 10; }
         else { P = uint8_t(s.range<unsigned>(0, 32)); uint64_t maxm = std::min<uint64_t>(0xffffffffULL, uint64_t{1} << std::min<unsigned>(P + 3, 32)); M = uint32_t(s.chance(128) ? maxm : s.range<uint64_t>(1, maxm)); if (s.chance(64)) M = uint32_t(std::min<uint64_t>(uint64_t{1} << std::min<unsigned>(P, 31), 0xffffffffULL)); }
-        size_t n = s.chance(6) ? s.range<size_t>(2000, 20000) : s.chance(40) ? s.range<size_t>(250, 260) : s.range<size_t>(0, 60);
+        size_t n = s.chance(2) ? s.range<size_t>(2000, 20000) : s.chance(40) ? s.range<size_t>(250, 260) : s.range<size_t>(0, 60);
         std::set<Bytes> model;
         GCSFilter::ElementSet elements;
         bool cheap = n > 300;
@@ -485,7 +485,7 @@ VERIF_TARGET(c51_bloom, init_c51, 24, 400,
 // ==================================================================================================================
 VERIF_TARGET(c51_rolling, init_c51, 24, 300,
              "CRollingBloomFilter(capacity N in 1..400 (sometimes ..3000), fp rate 0.5..1e-9): 0..3.5N+40 insertions of generated keys (fresh, re-inserted old, "
-             "re-inserted recent; byte keys and uint256) with occasional reset(); after every insertion the last 3 keys, and at check points (every ~N/3 "
+             "re-inserted recent; byte keys and uint256) with an occasional reset(); after every insertion the last 3 keys, and at check points (every ~N/3 "
              "insertions and at the end) each of the last min(N, inserted) keys must be contained. non-trivial = more than 3N/2 insertions (at least one "
              "generation wiped); distinct = (N bucket, fp, insert-count/N ratio, resets, reinsert kinds)")
 {
@@ -501,6 +501,7 @@ VERIF_TARGET(c51_rolling, init_c51, 24, 300,
     size_t inserted = 0, resets = 0, since_reset = 0;
     uint64_t kinds = 0;
     size_t next_check = std::max<size_t>(1, N / 3);
+    size_t reset_at = s.chance(32) ? s.index(total + 1) : size_t(-1);
     auto check_window = [&](const char* when) {
         for (auto& k : window) { st.steps++; VCHECK(filter.contains(k), "c51.rolling-recent", when, "one of the last N keys is missing: N", N, "inserted since reset", since_reset, "window", window.size()); }
     };
@@ -517,7 +518,7 @@ VERIF_TARGET(c51_rolling, init_c51, 24, 300,
         if (window.size() > N) window.pop_front();
         for (size_t b = 0; b < std::min<size_t>(3, window.size()); ++b) { st.steps++; VCHECK(filter.contains(window[window.size() - 1 - b]), "c51.rolling-recent", "a key inserted", b, "insertions ago is missing: N", N, "since reset", since_reset); }
         if (i + 1 == next_check) { check_window("check point:"); next_check += std::max<size_t>(1, N / 3) + s.range<size_t>(0, 2); }
-        if (s.chance(2) && total > 10) { filter.reset(); window.clear(); since_reset = 0; ++resets; }
+        if (i == reset_at) { filter.reset(); window.clear(); since_reset = 0; ++resets; }
     }
     check_window("end:");
     st.nontrivial = since_reset > size_t(N) * 3 / 2 + 1 || (resets == 0 && inserted > size_t(N) * 3 / 2 + 1);
